@@ -577,7 +577,8 @@ void singularCase(Ctx& c, vh::Rng& g) {
     const double h = g.range(2.0, 6.0), d = g.range(0.05, 1.0);                            // rod shorter than the distance to the line
     Constraint::Rod(M.matter.Ground(), Vec3(0, h, 0), b1, Vec3(0), d);
     M.state = M.system.realizeTopology(); M.system.realizeModel(M.state);
-    State& s = M.state;                                                                    // q = 0: p = (0,-h,0) is perpendicular to the slider axis
+    State& s = M.state;                                                                    // q ~ 0: p = (q,-h,0) is perpendicular to the slider axis
+    s.updQ()[0] = g.below(4) == 0 ? 0.0 : g.signedMag(1.0, 9.0) * std::pow(10.0, -(10 + g.below(21)));   // Jacobian q/|p| is 0 or tiny
     M.system.realize(s, Stage::Time); M.system.prescribeQ(s); M.system.realize(s, Stage::Position);
     doProjectQ(c, M, s, randomOptions(g), "singular", {});
 }
